@@ -56,6 +56,9 @@ def c11_pre(tier):
     names = [d for d, _ in rows]
     dup = sorted(set(n for n in names if names.count(n) > 1)) if len(set(names)) != len(names) else []
     res.append(('csv-no-duplicate-domain', not dup, 'duplicates: %s' % dup[:5] if dup else '%d rows, all distinct' % len(rows)))
+    unsorted = [(a, b) for a, b in zip(names, names[1:]) if not a.encode() < b.encode()]
+    res.append(('csv-strictly-sorted', not unsorted, 'rows out of order: %s' % unsorted[:3] if unsorted else
+                'rows in strictly ascending byte order (the symbolic-table query assumes the same of its rows)'))
     bad = [n for n in names if n != n.lower() or not re.match(r'^[a-z0-9-]+$', n)]
     res.append(('csv-lowercase-a-labels', not bad, 'not lower-case LDH: %s' % bad[:5] if bad else 'all rows lower-case LDH A-labels'))
     # re-run the repository's generators (Perl) on the shipped CSVs; Text::CSV is replaced by stubs/perl/Text/CSV.pm
